@@ -36,21 +36,21 @@ time_t g_now; int g_time_calls;
 static void verif_time(time_t *t) { *t = g_now; g_time_calls++; }
 int g_lru_erase_calls, g_lru_push_calls, g_tm_erase_calls, g_tm_insert_calls, g_primary_erase_calls, g_primary_insert_calls, g_find_calls, g_tl_erase_calls, g_trig_erase_calls;
 hnd g_lru_erase_arg, g_lru_push_arg, g_lru_front, g_tm_erase_arg, g_primary_erase_arg, g_find_res, g_new_node, g_new_tm, g_new_lru; size_t g_find_key, g_insert_key; time_t g_tm_insert_deadline; hnd g_tm_insert_node;
-static void lru_erase(hnd it) { __CPROVER_assert(it != 0 && g_lru_n > 0, "lru.erase of a live iterator"); g_lru_n--; g_lru_erase_calls++; g_lru_erase_arg = it; }
+static void lru_erase(hnd it) { __CPROVER_assert(it != 0 && g_lru_n > 0, "lru.erase of a live iterator"); g_lru_n--; if(g_lru_erase_calls < 1000) g_lru_erase_calls++; g_lru_erase_arg = it; }
 static void lru_push_front(hnd p) { g_lru_n++; g_lru_push_calls++; g_lru_push_arg = p; g_lru_front = g_new_lru; }
 static hnd lru_begin(void) { return g_lru_front; }
 static bool lru_empty(void) { return g_lru_n == 0; }
-static void timeout_erase(hnd t) { __CPROVER_assert(t != 0 && g_tm_n > 0, "timeout.erase of a live iterator"); g_tm_n--; g_tm_erase_calls++; g_tm_erase_arg = t; }
+static void timeout_erase(hnd t) { __CPROVER_assert(t != 0 && g_tm_n > 0, "timeout.erase of a live iterator"); g_tm_n--; if(g_tm_erase_calls < 1000) g_tm_erase_calls++; g_tm_erase_arg = t; }
 static hnd timeout_insert(time_t d, hnd p) { g_tm_n++; g_tm_insert_calls++; g_tm_insert_deadline = d; g_tm_insert_node = p; return g_new_tm; }
 static bool timeout_empty(void) { return g_tm_n == 0; }
 static hnd timeout_begin_again(void);
 static hnd primary_find(size_t key) { g_find_calls++; g_find_key = key; return g_find_res; }
-static void primary_erase(hnd p) { __CPROVER_assert(p != 0 && g_primary_n > 0, "primary.erase of a live iterator"); g_primary_n--; g_primary_erase_calls++; g_primary_erase_arg = p; }
+static void primary_erase(hnd p) { __CPROVER_assert(p != 0 && g_primary_n > 0, "primary.erase of a live iterator"); g_primary_n--; if(g_primary_erase_calls < 1000) g_primary_erase_calls++; g_primary_erase_arg = p; }
 static hnd primary_insert(size_t key) { g_primary_n++; g_primary_insert_calls++; g_insert_key = key; return g_new_node; }
 /* per-trigger list of a node's trigger reference: erase one link; the list may become empty (arbitrary), then the map entry goes */
-static void triglist_erase(hnd list, hnd pos) { __CPROVER_assert(list != 0 && pos != 0 && g_links_n > 0, "erase of a live trigger link"); g_links_n--; g_tl_erase_calls++; }
+static void triglist_erase(hnd list, hnd pos) { __CPROVER_assert(list != 0 && pos != 0 && g_links_n > 0, "erase of a live trigger link"); g_links_n--; if(g_tl_erase_calls < 1000) g_tl_erase_calls++; }
 static bool triglist_empty(hnd list) { int b; return b != 0; }
-static void triggers_erase(hnd list) { g_trig_erase_calls++; }
+static void triggers_erase(hnd list) { g_trig_erase_calls = 1; }
 /* the element the eviction loop may pick: the multimap's first element (smallest deadline) and the LRU list's last element; chosen afresh at every call */
 hnd g_cand_tm, g_cand_lru_node; bool g_cand_tm_valid, g_cand_lru_valid;
 static hnd timeout_begin(void) { __CPROVER_assert(g_tm_n > 0, "timeout.begin() of a non-empty multimap"); hnd t; __CPROVER_assume(t != 0 && t < NCAP && NODE_SANE(g_tm[t].second)); g_cand_tm = t; g_cand_tm_valid = 1; return t; }
@@ -82,14 +82,14 @@ DEL_CONTRACT = r'''
 /* p is an element of primary: the structure is consistent and holds at least this node.
    When called from the eviction loop the victim must be the candidate the policy prescribes: the entry with the smallest deadline if that
    deadline has passed, otherwise the least recently used one */
-__CPROVER_requires(__CPROVER_rw_ok(self, sizeof(*self)) && RI(self) && self->size >= 1 && NODE_SANE(p) &&
+__CPROVER_requires(__CPROVER_rw_ok(self, sizeof(*self)) && RI(self) && self->size >= 1 && NODE_SANE(p) && g_del_calls >= 0 && g_del_calls <= 2 * NCAP &&
                    (g_policy_on ==> ((g_cand_tm_valid && g_tm[g_cand_tm].first < g_now) ? p == g_tm[g_cand_tm].second : (g_cand_lru_valid && p == g_cand_lru_node))))
 __CPROVER_assigns(self->size, self->triggers_count, g_primary_n, g_lru_n, g_tm_n, g_links_n, g_lru_erase_calls, g_lru_erase_arg, g_tm_erase_calls, g_tm_erase_arg, g_primary_erase_calls, g_primary_erase_arg,
                   g_tl_erase_calls, g_trig_erase_calls, g_del_calls, g_del_first, g_del_last, g_del_at_vi, g_cand_tm_valid, g_cand_lru_valid)
 /* the node leaves ALL four structures: its LRU position, its deadline entry, every trigger link it owns, and the key map; the counters follow */
-__CPROVER_ensures(RI(self) && self->size == __CPROVER_old(self->size) - 1 && self->triggers_count == __CPROVER_old(self->triggers_count) - g_nd[p].ntrig)
-__CPROVER_ensures(g_lru_erase_calls == __CPROVER_old(g_lru_erase_calls) + 1 && g_lru_erase_arg == g_nd[p].lru && g_tm_erase_calls == __CPROVER_old(g_tm_erase_calls) + 1 && g_tm_erase_arg == g_nd[p].timeout &&
-                  g_primary_erase_calls == __CPROVER_old(g_primary_erase_calls) + 1 && g_primary_erase_arg == p && g_tl_erase_calls == __CPROVER_old(g_tl_erase_calls) + (int)g_nd[p].ntrig)
+__CPROVER_ensures(RI(self) && self->size == __CPROVER_old(self->size) - 1 && self->triggers_count == __CPROVER_old(self->triggers_count) - g_nd[p].ntrig && g_links_n <= __CPROVER_old(g_links_n))
+/* (each container shrinks by exactly one element: RI with size-1; these are the elements the node itself refers to) */
+__CPROVER_ensures(g_lru_erase_arg == g_nd[p].lru && g_tm_erase_arg == g_nd[p].timeout && g_primary_erase_arg == p)
 __CPROVER_ensures(g_del_calls == __CPROVER_old(g_del_calls) + 1 && g_del_last == p && g_del_first == (__CPROVER_old(g_del_calls) == 0 ? p : __CPROVER_old(g_del_first)) &&
                   g_del_at_vi == ((size_t)__CPROVER_old(g_del_calls) == g_vi ? p : __CPROVER_old(g_del_at_vi)) && !g_cand_tm_valid && !g_cand_lru_valid)
 '''
@@ -103,8 +103,7 @@ functions = [
          body_ghost='g_del_first = (g_del_calls == 0) ? p : g_del_first; g_del_at_vi = ((size_t)g_del_calls == g_vi) ? p : g_del_at_vi; g_del_last = p; g_del_calls = g_del_calls + 1; g_cand_tm_valid = 0; g_cand_lru_valid = 0;',
          loops={0: r'''
 __CPROVER_assigns(i, self->triggers_count, g_links_n, g_tl_erase_calls, g_trig_erase_calls)
-__CPROVER_loop_invariant(i >= g_nd[p].trig0 && i <= g_nd[p].trig0 + g_nd[p].ntrig && g_links_n + (i - g_nd[p].trig0) == __CPROVER_loop_entry(g_links_n) && self->triggers_count == g_links_n &&
-      g_tl_erase_calls == __CPROVER_loop_entry(g_tl_erase_calls) + (int)(i - g_nd[p].trig0))
+__CPROVER_loop_invariant(i >= g_nd[p].trig0 && i <= g_nd[p].trig0 + g_nd[p].ntrig && g_links_n <= __CPROVER_loop_entry(g_links_n) && __CPROVER_loop_entry(g_links_n) - g_links_n == i - g_nd[p].trig0 && self->triggers_count == g_links_n)
 __CPROVER_decreases(g_nd[p].trig0 + g_nd[p].ntrig - i)'''},
          contract=DEL_CONTRACT + r'''
 '''),
@@ -115,8 +114,8 @@ __CPROVER_decreases(g_nd[p].trig0 + g_nd[p].ntrig - i)'''},
                    (r'!lru\.empty\(\)', '!lru_empty()', 1), (r'main=\*lru\.rbegin\(\);', 'main=lru_back();', 1)],
          loops={0: r'''
 __CPROVER_assigns(main, self->size, self->triggers_count, g_primary_n, g_lru_n, g_tm_n, g_links_n, g_lru_erase_calls, g_lru_erase_arg, g_tm_erase_calls, g_tm_erase_arg, g_primary_erase_calls, g_primary_erase_arg,
-                  g_tl_erase_calls, g_trig_erase_calls, g_del_calls, g_del_first, g_del_last, g_del_at_vi, g_cand_tm, g_cand_tm_valid, g_cand_lru_node, g_cand_lru_valid)
-__CPROVER_loop_invariant(RI(self) && self->size <= __CPROVER_loop_entry(self->size) && g_del_calls >= __CPROVER_loop_entry(g_del_calls) && (size_t)(g_del_calls - __CPROVER_loop_entry(g_del_calls)) == __CPROVER_loop_entry(self->size) - self->size && !g_cand_tm_valid && !g_cand_lru_valid && now == g_now)
+                  g_tl_erase_calls, g_trig_erase_calls, g_del_calls, g_del_first, g_del_last, g_del_at_vi, g_cand_tm, g_cand_tm_valid, g_cand_lru_node, g_cand_lru_valid, g_nomem_seen)
+__CPROVER_loop_invariant(RI(self) && self->size <= __CPROVER_loop_entry(self->size) && g_links_n <= __CPROVER_loop_entry(g_links_n) && g_del_calls >= 0 && g_del_calls <= 1 + (int)NCAP && (__CPROVER_loop_entry(g_del_calls) >= 1 ==> g_del_first == __CPROVER_loop_entry(g_del_first)) && g_del_calls >= __CPROVER_loop_entry(g_del_calls) && (size_t)(g_del_calls - __CPROVER_loop_entry(g_del_calls)) == __CPROVER_loop_entry(self->size) - self->size && !g_cand_tm_valid && !g_cand_lru_valid && now == g_now)
 __CPROVER_decreases(self->size)'''},
          contract=r'''
 __CPROVER_requires(__CPROVER_rw_ok(self, sizeof(*self)) && RI(self) && g_del_calls >= 0 && g_del_calls <= 1 && g_policy_on && !g_cand_tm_valid && !g_cand_lru_valid)
@@ -124,8 +123,8 @@ __CPROVER_assigns(self->size, self->triggers_count, g_primary_n, g_lru_n, g_tm_n
                   g_tl_erase_calls, g_trig_erase_calls, g_del_calls, g_del_first, g_del_last, g_del_at_vi, g_cand_tm, g_cand_tm_valid, g_cand_lru_node, g_cand_lru_valid, g_time_calls, g_nomem_seen)
 /* room is made: afterwards the cache is empty or strictly below its limit (limit 0 = unlimited), so one insertion keeps it within the limit;
    every victim was the prescribed candidate (precondition of delete_node, checked at each call); exactly size_before - size_after nodes were deleted */
-__CPROVER_ensures(RI(self) && (self->size == 0 || self->limit == 0 || self->size < self->limit || g_nomem_seen))
-__CPROVER_ensures((size_t)(g_del_calls - __CPROVER_old(g_del_calls)) == __CPROVER_old(self->size) - self->size)
+__CPROVER_ensures(RI(self) && g_links_n <= __CPROVER_old(g_links_n) && self->size <= __CPROVER_old(self->size) && (self->size == 0 || self->limit == 0 || self->size < self->limit || g_nomem_seen))
+__CPROVER_ensures(g_del_calls >= __CPROVER_old(g_del_calls) && (size_t)(g_del_calls - __CPROVER_old(g_del_calls)) == __CPROVER_old(self->size) - self->size && (__CPROVER_old(g_del_calls) >= 1 ==> g_del_first == __CPROVER_old(g_del_first)))
 '''),
     dict(cname='mc_add_trigger', stub=True, sig='void mc_add_trigger(struct mc *self, hnd p, size_t key)', self_arg='self',
          contract='/* add_trigger(p,key): one more (node, trigger) link, counted (body: triggers map insert + two list pushes, container code) */\n'
@@ -150,7 +149,7 @@ __CPROVER_ensures((size_t)(g_del_calls - __CPROVER_old(g_del_calls)) == __CPROVE
          inserts=[(r'mc_delete_node\(self, main\);', 0, 'g_policy_on = 1;')],
          loops={0: r'''
 __CPROVER_assigns(si, self->triggers_count, g_links_n, g_addtr_calls, g_addtr_last_key, g_addtr_first_key, g_addtr_node)
-__CPROVER_loop_invariant(si <= triggers_in->n && self->triggers_count == g_links_n && g_links_n <= 15 * NCAP + si + 1 && g_addtr_calls == (int)si + (triggers_in->has_key ? 0 : 1) && g_addtr_node == main && main != 0 && main < NCAP)
+__CPROVER_loop_invariant(si <= triggers_in->n && self->triggers_count == g_links_n && g_links_n <= 15 * NCAP + si + 1 && g_addtr_calls == (int)si + (triggers_in->has_key ? 0 : 1) && (g_addtr_calls > 0 ==> g_addtr_node == main) && (!triggers_in->has_key ==> g_addtr_first_key == key) && main != 0 && main < NCAP)
 __CPROVER_decreases(triggers_in->n - si)'''},
          contract=r'''
 __CPROVER_requires(__CPROVER_rw_ok(self, sizeof(*self)) && RI(self) && g_primary_n < NCAP && g_links_n <= 15 * NCAP && triggers_in->n <= 1000 && __CPROVER_r_ok(triggers_in->id, triggers_in->n * sizeof(size_t)) &&
@@ -171,7 +170,7 @@ __CPROVER_ensures(g_primary_insert_calls <= 1 && (g_primary_insert_calls == 1 ==
                   g_lru_push_calls == 1 && g_lru_push_arg == g_new_node && g_nd[g_new_node].lru == g_new_lru &&
                   g_tm_insert_calls == 1 && g_tm_insert_deadline == timeout_in && g_tm_insert_node == g_new_node && g_nd[g_new_node].timeout == g_new_tm)))
 /* triggers: the key itself (unless listed) and every listed trigger, each attached to the new node */
-__CPROVER_ensures(g_primary_insert_calls == 1 ==> (g_addtr_calls == (int)triggers_in->n + (triggers_in->has_key ? 0 : 1) && g_addtr_node == g_new_node &&
+__CPROVER_ensures(g_primary_insert_calls == 1 ==> (g_addtr_calls == (int)triggers_in->n + (triggers_in->has_key ? 0 : 1) && (g_addtr_calls > 0 ==> g_addtr_node == g_new_node) &&
                   (!triggers_in->has_key ==> g_addtr_first_key == key)))
 __CPROVER_ensures(g_primary_insert_calls == 0 ==> (g_addtr_calls == 0 && g_lru_push_calls == 0 && g_tm_insert_calls == 0))
 '''),
@@ -240,7 +239,7 @@ SETUP = r'''
     g_nd = malloc(capn * sizeof(struct node)); g_tm = malloc(capt * sizeof(struct tment)); g_tr = malloc(capr * sizeof(struct tref)); g_tl = malloc(capl * sizeof(hnd));
     __CPROVER_assume(g_nd != NULL && g_tm != NULL && g_tr != NULL && g_tl != NULL);
     size_t pn, ln; __CPROVER_assume(pn <= NCAP && ln <= 15 * NCAP); g_primary_n = pn; g_lru_n = pn; g_tm_n = pn; g_links_n = ln; c.size = pn; c.triggers_count = ln;
-    g_del_calls = 0; g_addtr_calls = 0; g_primary_insert_calls = 0; g_lru_push_calls = 0; g_lru_erase_calls = 0; g_tm_insert_calls = 0; g_find_calls = 0; g_out_trig_calls = 0; g_cand_tm_valid = 0; g_cand_lru_valid = 0; g_nomem_seen = 0;
+    g_del_calls = 0; g_tl_erase_calls = 0; g_tm_erase_calls = 0; g_primary_erase_calls = 0; g_trig_erase_calls = 0; g_time_calls = 0; g_addtr_calls = 0; g_primary_insert_calls = 0; g_lru_push_calls = 0; g_lru_erase_calls = 0; g_tm_insert_calls = 0; g_find_calls = 0; g_out_trig_calls = 0; g_cand_tm_valid = 0; g_cand_lru_valid = 0; g_nomem_seen = 0;
     size_t vi; g_vi = vi; time_t nw; g_now = nw; hnd fr, nn, nt, nl; g_find_res = fr; g_new_node = nn; g_new_tm = nt; g_new_lru = nl; int pol; g_policy_on = pol != 0;
 '''
 jobs = [
